@@ -856,6 +856,16 @@ class Interp:
                     raise Unknown("comparator result %r" % (r,))
                 v.sort(key=functools.cmp_to_key(cmp))
             return ()
+        if gen in ("alloc::vec::Vec::<T, A>::retain", "alloc::vec::Vec::<T, A>::retain_mut"):
+            v = self.ev(args[0], env, depth)
+            c = self.ev(args[1], env, depth)
+            if isinstance(v, Ref):
+                v = v.get()
+            if not isinstance(v, list):
+                raise Unknown("retain on %r" % (v,))
+            keep = [x for x in list(v) if self.truth(self.call_callable(c, [x], depth))]
+            v[:] = keep
+            return ()
         if gen in ("core::iter::traits::collect::Extend::extend", "alloc::vec::Vec::<T, A>::extend_from_slice", "alloc::vec::Vec::<T, A>::append"):
             v = self.ev(args[0], env, depth)
             o = self.ev(args[1], env, depth)
@@ -874,6 +884,23 @@ class Interp:
             if isinstance(v, Enum) and v.variant in ("Some", "None", "Ok", "Err"):
                 return v.variant == {"is_some": "Some", "is_none": "None", "is_ok": "Ok", "is_err": "Err"}[short(gen)]
             raise Unknown("%s of %r" % (short(gen), v))
+        if gen in ("core::slice::<impl [T]>::get", "core::slice::<impl [T]>::get_mut"):
+            v = self.ev(args[0], env, depth)
+            i = self.ev(args[1], env, depth)
+            if isinstance(v, Ref):
+                v = v.get()
+            if isinstance(v, (list, tuple)) and isinstance(i, int):
+                if 0 <= i < len(v):
+                    return Enum("Option", "Some", {"0": v[i] if short(gen) == "get" or isinstance(v[i], (Enum, list)) else Ref(v, i)})
+                return Enum("Option", "None")
+            if isinstance(v, (list, tuple)) and isinstance(i, Enum) and i.adt.startswith("Range"):
+                lo, hi = i.fields.get("start", 0), i.fields.get("end", len(v))
+                if i.adt in ("RangeInclusive", "RangeToInclusive") and isinstance(hi, int):
+                    hi += 1
+                if isinstance(lo, int) and isinstance(hi, int) and 0 <= lo <= hi <= len(v):
+                    return Enum("Option", "Some", {"0": list(v[lo:hi])})
+                return Enum("Option", "None")
+            raise Unknown("get(%r) on %r" % (i, v))
         if gen in ("core::slice::<impl [T]>::split_first", "core::slice::<impl [T]>::split_last", "core::slice::<impl [T]>::first", "core::slice::<impl [T]>::last"):
             v = self.ev(args[0], env, depth)
             if not isinstance(v, (list, tuple)):
